@@ -10,7 +10,7 @@ FINCHK-INCL (upward / forward inclusion: explicit up, generic up functor, NFA an
 has been looked at in the same iteration (the test that, together with the macro-state's accepting
 flag, yields the counterexample exit). Wrappers that insert their own parameter are checked at their
 call sites; pairs moved over from another antichain's data() were checked when they entered it."""
-from vfacts import strip, walk, method_name, root_path, enclosing, is_node
+from vfacts import strip, walk, method_name, root_path, enclosing, is_node, must_pass_through
 from .worklist import insert_call_of, key_text
 
 RULE = 'FINCHK'
@@ -151,7 +151,19 @@ def run(unit, em):
                 key = key_text(unit, ins)
                 txt = unit.text(ins, 80)
                 if filt is not None:
-                    em.ok(n, txt, 'finality of every reachable state is taken from the closing filter over the final states', 'witness')
+                    # the filter must lie on every path from the insert to a return: an exit that skips it returns
+                    # a witness whose reachable accepting states were never marked
+                    cfg = fn.cfg()
+                    pos = cfg.locate(ins) if cfg else None
+                    inside = {id(x) for x in walk(filt)}
+                    if cfg is None or pos is None:
+                        em.unknown(n, txt, 'CFG position of the insert not found', 'witness')
+                        continue
+                    okp, w = must_pass_through(cfg, pos, lambda x: x['k'] == 'ReturnStmt', lambda x: id(x) in inside)
+                    if okp:
+                        em.ok(n, txt, 'finality of every reachable state is taken from the closing filter over the final states, which lies on every path to a return', 'witness')
+                    else:
+                        em.violation(w if w is not None else n, 'return reached from ' + txt, 'this return is reachable from the point where %s entered the reachable set without passing the closing filter over the final states: accepting states reached so far are never marked and the witness can be empty for a non-empty language' % key, 'witness')
                     continue
                 loop = enclosing(n, LOOPS)
                 scope = loop['body'] if loop is not None and is_node(loop.get('body')) else fn.body
